@@ -14,6 +14,8 @@ import EaselModel.Alphabet.SqTableLemmas
 import EaselModel.Alphabet.ValidateLemmas
 import EaselModel.Alphabet.HistoryLemmas
 import EaselModel.Alphabet.Sq2Lemmas
+import EaselModel.Alphabet.IntScoreLemmas
+import EaselModel.Alphabet.Round4Lemmas
 /-! # C08 — property theorems (statements + glue only; lemmas live in Alphabet/*.lean)
 
 `G.dna`, `G.rna`, `G.amino`, `G.coins`, `G.dice` are the tables dumped from the code under check on this run
@@ -530,6 +532,169 @@ theorem sq_checksum_ascii (bytes : List Nat) (h : ∀ c ∈ bytes, c < 128) :
 example : Sq.countResidues G.dna (mkDsq [0, 5, 4, 15]) 4 1 4 ([0, 0, 0, 0] : List ℚ) = some (some [7/4, 1/4, 3/4, 1/4]) := by
   decide +kernel
 example : Sq.countResidues G.dna (mkDsq [0, 5, 4, 15]) 4 2 4 ([0, 0, 0, 0] : List ℚ) = none := by decide +kernel
+
+/-! ## round 4: the decision function of `esl_abc_GuessAlphabet`, `esl_msa_GuessAlphabet` -/
+
+/-- **`guess_spec`**: on counts in `[0, 2^31)` the answer of `esl_abc_GuessAlphabet` is EXACTLY this decision list of the 26
+    letter counts (sums `sumOf` and numbers of occurring letters `seen` over the documented letter classes; 0 = unknown,
+    1 = RNA, 2 = DNA, 3 = amino) -/
+theorem guess_spec (ct : List Int) (h : Guess.Counts ct) : Guess.guessZ ct =
+    if Guess.total ct ≤ 10 then 0
+    else if Guess.total ct > 2000 ∧ ct.getD 13 0 = Guess.total ct then 2
+    else if Guess.sumOf ct Guess.aaonly > 0 then 3
+    else if 50 * (Guess.total ct - (Guess.sumOf ct Guess.allcanon + ct.getD 19 0 + ct.getD 13 0)) ≤ Guess.total ct ∧
+        Guess.seen ct Guess.allcanon + Guess.seen ct [19] = 4 then 2
+    else if 50 * (Guess.total ct - (Guess.sumOf ct Guess.allcanon + ct.getD 20 0 + ct.getD 13 0)) ≤ Guess.total ct ∧
+        Guess.seen ct Guess.allcanon + Guess.seen ct [20] = 4 then 1
+    else if 50 * (Guess.total ct - (Guess.sumOf ct Guess.aaonly + Guess.sumOf ct Guess.allcanon + Guess.sumOf ct Guess.aacanon +
+          ct.getD 13 0 + ct.getD 19 0 + ct.getD 23 0)) ≤ Guess.total ct ∧
+        Guess.sumOf ct Guess.aacanon > Guess.sumOf ct Guess.allcanon ∧
+        Guess.seen ct Guess.aaonly + Guess.seen ct Guess.allcanon + Guess.seen ct Guess.aacanon + Guess.seen ct [13] +
+          Guess.seen ct [19] ≥ 15 then 3
+    else 0 :=
+  Guess.guessZ_eq ct h
+
+/-- **`esl_msa_GuessAlphabet` on a text-mode alignment** (any rows, any bytes, any classifier `g` of a composition): the vote
+    over the per-row answers if it decides; otherwise the answer for the composition of the rows laid end to end, counted
+    by the loop of `esl_sq_GuessAlphabet` (same 10000-letter cutoff). The model's bounds-checked counter store never fails:
+    the answer is never a fault (the `'['` = `'A'+26` store to `ct[26]` was repaired in 9b7e276). -/
+theorem msa_guess_spec (g : List Int → Nat) (rows : List (List Nat)) :
+    Guess.msaGuess g rows = some (
+      let t := Guess.msaVote (rows.map fun r => g (Guess.sqCount r (List.replicate 26 0) 0))
+      if t ≠ 0 then (true, t)
+      else (decide (g (Guess.sqCount rows.flatten (List.replicate 26 0) 0) ≠ 0),
+            g (Guess.sqCount rows.flatten (List.replicate 26 0) 0))) :=
+  Guess.msaGuess_spec g rows
+
+/-- the vote: amino iff some row is amino and none nucleic; DNA iff some row is DNA and none amino (RNA rows are outvoted);
+    RNA iff some row is RNA and none DNA or amino; undecided iff no row is classified or amino and nucleic rows both occur -/
+theorem msa_vote_spec (types : List Nat) :
+    (Guess.msaVote types = 3 ↔ 3 ∈ types ∧ 2 ∉ types ∧ 1 ∉ types) ∧
+    (Guess.msaVote types = 2 ↔ 2 ∈ types ∧ 3 ∉ types) ∧
+    (Guess.msaVote types = 1 ↔ 1 ∈ types ∧ 2 ∉ types ∧ 3 ∉ types) ∧
+    (Guess.msaVote types = 0 ↔ (3 ∉ types ∧ 2 ∉ types ∧ 1 ∉ types) ∨ (3 ∈ types ∧ (2 ∈ types ∨ 1 ∈ types))) :=
+  Guess.msaVote_spec types
+
+example : Guess.msaGuess Guess.guessZ [str "AC[GT-", str "ACGGT-"] = some (false, 0) ∧
+    Guess.msaGuess Guess.guessZ [str "AC[GTAC", str "ACGGTTA"] = some (true, 2) := by decide +kernel
+example : Guess.msaGuess Guess.guessZ [str "ACGUACGUACGU", str "ACGTACGTACGT", str "NNNN--------"] = some (true, 2) := by
+  decide +kernel
+/-- **observation**: the documentation says an alignment with an amino row and a nucleic row is indeterminate (eslUNKNOWN); in
+    the code an undecided vote always falls through to the pooled second pass, which here answers amino -/
+example : Guess.msaVote [Guess.guessZ (Guess.sqCount (str "ACGUACGUACGU") (List.replicate 26 0) 0),
+      Guess.guessZ (Guess.sqCount (str "ACDEFGHIKLMN") (List.replicate 26 0) 0)] = 0 ∧
+    Guess.msaGuess Guess.guessZ [str "ACGUACGUACGU", str "ACDEFGHIKLMN"] = some (true, 3) := by decide +kernel
+
+/-! ## round 4: integer scores — `esl_abc_IAvgScore` / `IExpectScore` round half away from zero -/
+
+/-- the closing `if (result < 0) return (int)(result - 0.5); else return (int)(result + 0.5);` over ℚ is rounding to the
+    nearest integer with ties away from zero (`RoundHalfAway m n`: `m ∈ [n-1/2, n+1/2)` for `m ≥ 0`, `m ∈ (n-1/2, n+1/2]` for
+    `m < 0`); that integer is unique, lies within 1/2 of `m`, has the larger magnitude in a tie, and the rounding is odd -/
+theorem round_half_away (m : ℚ) :
+    RoundHalfAway m (roundHalfQ m) ∧ (∀ n, RoundHalfAway m n → n = roundHalfQ m) ∧
+    |((roundHalfQ m : Int) : ℚ) - m| ≤ 1/2 ∧ (|((roundHalfQ m : Int) : ℚ) - m| = 1/2 → |m| < |((roundHalfQ m : Int) : ℚ)|) ∧
+    roundHalfQ (-m) = - roundHalfQ m :=
+  ⟨roundHalfQ_spec m, fun n hn => roundHalfAway_unique m n _ hn (roundHalfQ_spec m),
+   (roundHalfAway_abs m _ (roundHalfQ_spec m)).1, (roundHalfAway_abs m _ (roundHalfQ_spec m)).2, roundHalfQ_neg m⟩
+
+/-- **`iavg_score_rounding`**: `esl_abc_IAvgScore(a, x, sc)` = the exact mean of the integer scores over the set of `x`,
+    rounded half away from zero; gap, nonresidue, missing and invalid codes score 0 -/
+theorem iavg_score_rounding (a : Alphabet) (h : a.WFDegen) (x : Nat) (sc : List Int) (hsc : a.K ≤ sc.length) :
+    (x < a.Kp → a.xIsResidue x = true → iAvgScore ℚ a x sc =
+      some (roundHalfQ (((a.degenSet x).map fun i => ((sc.getD i 0 : Int) : ℚ)).sum / ((a.degenSet x).length : ℚ)))) ∧
+    (a.xIsResidue x = false → iAvgScore ℚ a x sc = some 0) :=
+  ⟨fun hx hres => iAvgScore_round a h x hx hres sc hsc, fun hres => iAvgScore_nonresidue a x hres sc⟩
+
+/-- `esl_abc_IExpectScore(a, x, sc, p)` = the `p`-weighted mean over the set, rounded half away from zero -/
+theorem iexpect_score_rounding (a : Alphabet) (h : a.WFDegen) (x : Nat) (hx : x < a.Kp) (hres : a.xIsResidue x = true)
+    (sc : List Int) (p : List ℚ) (hsc : a.K ≤ sc.length) (hp : a.K ≤ p.length) :
+    iExpectScore a x sc p =
+      some (roundHalfQ (((a.degenSet x).map fun i => ((sc.getD i 0 : Int) : ℚ) * p.getD i 0).sum /
+        ((a.degenSet x).map fun i => p.getD i 0).sum)) :=
+  iExpectScore_round a h x hx hres sc p hsc hp
+
+/-- `esl_abc_IAvgScVec` / `esl_abc_IExpectScVec` on a `Kp`-long `int` vector: exactly the degenerate slots `K < x ≤ Kp-3`
+    are filled, each with the rounded (weighted) mean of the canonical scores; every other slot keeps its value; no
+    out-of-bounds access -/
+theorem iscvec_spec (a : Alphabet) (h : a.WFDegen) (hK : a.K + 4 ≤ a.Kp) (sc : List Int) (hl : sc.length = a.Kp)
+    (p : List ℚ) (hp : a.K ≤ p.length) :
+    (∃ r, iAvgScVec ℚ a sc = some r ∧ r.length = a.Kp ∧
+      ∀ x, r.getD x 0 = if a.K < x ∧ x + 3 ≤ a.Kp
+        then roundHalfQ (((a.degenSet x).map fun i => ((sc.getD i 0 : Int) : ℚ)).sum / ((a.degenSet x).length : ℚ))
+        else sc.getD x 0) ∧
+    (∃ r, iExpectScVec a sc p = some r ∧ r.length = a.Kp ∧
+      ∀ x, r.getD x 0 = if a.K < x ∧ x + 3 ≤ a.Kp
+        then roundHalfQ (((a.degenSet x).map fun i => ((sc.getD i 0 : Int) : ℚ) * p.getD i 0).sum /
+          ((a.degenSet x).map fun i => p.getD i 0).sum)
+        else sc.getD x 0) :=
+  ⟨iAvgScVec_spec a h hK sc hl, iExpectScVec_spec a h hK sc p hl hp⟩
+
+/-- ties go away from zero in both directions: DNA `R` = {A, G} with scores 1, 2 → 3/2 → 2, with −1, −2 → −3/2 → −2 -/
+example : roundHalfQ (3/2) = 2 := roundHalfQ_eq _ 2 (by unfold RoundHalfAway; norm_num)
+example : roundHalfQ (-3/2) = -2 := roundHalfQ_eq _ (-2) (by unfold RoundHalfAway; norm_num)
+example : roundHalfQ (1/2) = 1 := roundHalfQ_eq _ 1 (by unfold RoundHalfAway; norm_num)
+example : roundHalfQ (-1/2) = -1 := roundHalfQ_eq _ (-1) (by unfold RoundHalfAway; norm_num)
+example : roundHalfQ (7/3) = 2 := roundHalfQ_eq _ 2 (by unfold RoundHalfAway; norm_num)
+
+/-! ## round 4: text-mode `esl_sq_CountResidues`, `esl_abc_TextizeN` windows, `dsqrlen`, `dsqdup`, plain counts -/
+
+/-- **text-mode `esl_sq_CountResidues`** (after fix 10c7a99) for EVERY byte string: eslERANGE iff `start < 0` or
+    `start+L > n`; inside the range no out-of-bounds access, and counter `y` grows by the sum over the bytes
+    `start … start+L-1` of `shareC` — the share of the byte's code if the byte is a character of the alphabet, 0 for any other
+    byte (7-bit junk, bytes ≥ 0x80); and for a sequence of valid characters that is the digital-mode count of the
+    digitised sequence, position by position -/
+theorem sq_count_residues_text_spec (a : Alphabet) (h : a.WFDegen) (seq : List Nat) (f : List ℚ) (hf : f.length = a.K) (y : Nat) :
+    (∀ start L : Nat, start + L ≤ seq.length →
+      ∃ f', Sq.countResiduesText a seq start L f = some (some f') ∧ f'.length = a.K ∧
+        f'.getD y 0 = f.getD y 0 + (((seq.drop start).take L).map fun c => Sq.shareC a c y).sum) ∧
+    (∀ start L : Int, Sq.countResiduesText a seq start L f = none ↔ start < 0 ∨ start + L > (seq.length : Int)) ∧
+    ((∀ c ∈ seq, a.cIsValid c = true) →
+      seq.map (fun c => Sq.shareC a c y) = (seq.map a.inmapAt).map fun x => Sq.share a x y) :=
+  ⟨fun start L hr => Sq.countResiduesText_spec a h seq start L hr f hf y,
+   fun start L => (Sq.countResiduesText_range a seq start L f).1, fun hv => Sq.shareC_valid a seq hv y⟩
+
+example : Sq.countResiduesText G.dna (str "Ar-n") 0 4 ([0, 0, 0, 0] : List ℚ) = some (some [7/4, 1/4, 3/4, 1/4]) := by
+  decide +kernel
+example : Sq.countResiduesText G.dna [33, 233, 65] 0 3 ([0, 0, 0, 0] : List ℚ) = some (some [1, 0, 0, 0]) := by decide +kernel
+example : Sq.countResiduesText G.dna (str "ACGT") 1 4 ([0, 0, 0, 0] : List ℚ) = none := by decide +kernel
+
+/-- **`esl_abc_TextizeN(a, dsq + off, L, buf)`** on a digital sequence of valid codes, every `off ≤ n+1` (either sentinel
+    included) and every `L`: the window is spelled up to its first sentinel; a window holding a sentinel gets a NUL there and
+    nothing after it; a window inside the residues gets exactly `L` symbols and no NUL; a window reaching the closing sentinel
+    gets the remaining residues and a NUL. No out-of-bounds read. -/
+theorem textizen_spec (a : Alphabet) (codes : List Nat) (hs : SENTINEL ∉ codes) (hv : ∀ x ∈ codes, x < a.sym.length)
+    (off L : Nat) (hoff : off ≤ codes.length + 1) :
+    a.textizeN (mkDsq codes) off L 0 [] =
+      some ((((((mkDsq codes).drop off).take L).takeWhile (· ≠ SENTINEL)).map a.symAt) ++
+        (if SENTINEL ∈ ((mkDsq codes).drop off).take L then [0] else [])) ∧
+    (1 ≤ off → off + L ≤ codes.length + 1 →
+      a.textizeN (mkDsq codes) off L 0 [] = some (((codes.drop (off - 1)).take L).map a.symAt)) ∧
+    (1 ≤ off → codes.length + 1 < off + L →
+      a.textizeN (mkDsq codes) off L 0 [] = some ((codes.drop (off - 1)).map a.symAt ++ [0])) :=
+  ⟨textizeN_window a codes hv off L hoff, fun h1 h2 => textizeN_inside a codes hs hv off L h1 h2,
+   fun h1 h2 => textizeN_reaching a codes hs hv off L h1 hoff h2⟩
+
+example : G.dna.textizeN (mkDsq [0, 1, 2, 3]) 2 2 0 [] = some (str "CG") ∧
+    G.dna.textizeN (mkDsq [0, 1, 2, 3]) 3 5 0 [] = some (str "GT" ++ [0]) ∧
+    G.dna.textizeN (mkDsq [0, 1, 2, 3]) 0 3 0 [] = some [0] ∧ G.dna.textizeN (mkDsq [0, 1, 2, 3]) 5 1 0 [] = some [0] := by
+  decide +kernel
+
+/-- `esl_abc_dsqrlen` = number of residue codes (canonical or degenerate; not gap, nonresidue, missing);
+    `esl_abc_dsqdup` copies the whole array with both sentinels whether or not the length is given, and maps NULL to NULL -/
+theorem dsqrlen_dsqdup_spec (a : Alphabet) (codes : List Nat) (hs : SENTINEL ∉ codes) :
+    a.dsqrlen (mkDsq codes) = some (codes.filter a.xIsResidue).length ∧
+    dsqdup (some (mkDsq codes)) none = some (some (mkDsq codes)) ∧
+    dsqdup (some (mkDsq codes)) (some codes.length) = some (some (mkDsq codes)) ∧ (∀ L, dsqdup none L = some none) :=
+  ⟨dsqrlen_spec a codes hs, dsqdup_spec codes hs⟩
+
+/-- `esl_abc_{F,D}Count` on the codes that are not degenerate: a canonical residue or the gap adds the whole weight to its own
+    counter (the gap needs a vector of `K+1` counters: with `K` counters the store is out of bounds); nonresidue and missing
+    data change nothing -/
+theorem count_nondegenerate_codes (a : Alphabet) (hK : a.K + 4 ≤ a.Kp) (ct : List ℚ) (wt : ℚ) (x : Nat) :
+    (x ≤ a.K → x < ct.length → a.count ct x wt = some (ct.set x (ct.getD x 0 + wt))) ∧
+    (x ≤ a.K → ct.length ≤ x → a.count ct x wt = none) ∧
+    ((x = a.Kp - 2 ∨ x = a.Kp - 1) → a.count ct x wt = some ct) :=
+  count_simple a hK ct wt x
 
 /-! ## degenerate scores and counts (over ℚ: the code as a rational function; IEEE rounding is L0, compared bit-exactly
       against the real code by the correspondence run) -/
